@@ -272,9 +272,10 @@ def write_bam(path, chrom, contig_len, reads, extra_contigs=(), sort=True, fmt="
             a.reference_start = r["start"]
             a.mapping_quality = r.get("mapq", 60)
             a.cigartuples = r["cigar"]
-            a.query_sequence = r["seq"]
-            if r.get("qual") is not None:
-                a.query_qualities = array.array("B", r["qual"])
+            if r["seq"] is not None:  # (None: a record without stored sequence, SEQ and QUAL '*')
+                a.query_sequence = r["seq"]
+                if r.get("qual") is not None:
+                    a.query_qualities = array.array("B", r["qual"])
             for t, v in r.get("tags", {}).items():
                 a.set_tag(t, v)
             out.write(a)
